@@ -202,6 +202,44 @@ def _bigchain_shard(cases):
     return part.data()
 
 
+def shapes3():
+    """the five binary tree shapes with three operators, as postfix templates over leaves a b c d and operators 1 2 3"""
+    return ["ab1c2d3", "ab1cd23", "abc12d3", "abc1d23", "abcd123"]
+
+
+def _baltree_shard(cases):
+    part = explore.Partial()
+    for shape, ops_, lv in cases:
+        prog, st, li = "", [], 0
+        for ch in shape:
+            if ch in "abcd":
+                prog += "?"
+                st.append(Fraction(lv[li]))
+                li += 1
+            else:
+                o = ops_[int(ch) - 1]
+                prog += o
+                b = st.pop()
+                a = st.pop()
+                st.append(ref(o, a, b))
+        want = st[0]
+        part.count()
+        part.nontriv()
+        r = sandbox.run_program(prog, inputs=list(lv), timeout=20)
+        if r.exc is not None:
+            f, obs = None, "raises " + type(r.exc).__name__
+        elif len(r.stack) != 1:
+            f, obs = None, "stack height %d" % len(r.stack)
+        else:
+            f = exact(r.stack[0])
+            obs = str(r.stack[0])[:80] if f is not None else "%s: %s" % (type(r.stack[0]).__name__, str(r.stack[0])[:50])
+        part.outcome(("tree3", shape, ops_, want == 0))
+        if f != want:
+            part.violation("bigchain", {"program": prog, "inputs": list(lv)}, "operator tree over large integers: result differs from Fraction arithmetic",
+                           {"ops": ops_, "shape": shape, "what": "not an exact rational" if f is None else "wrong value"}, str(want), obs, size=300)
+    return part.data()
+
+
 def large_family():
     ps = [10 ** 6, 10 ** 6 - 1, 999983, 2 ** 19, -465082, 465082, 123456, -999999]
     qs = [3, 7, 1932, 9973, 10 ** 4, -7, 6]
@@ -248,10 +286,15 @@ def run(tier, seed):
     big = [("".join(o), lv) for k in (2, 3) for o in itertools.product(TREE_OPS, repeat=k) for lv in itertools.product(bl, repeat=k + 1)]
     big += [("".join(o), lv) for o in itertools.product("/*", repeat=4) for lv in itertools.product(BIG_LEAVES[:3], repeat=5)]
     explore.pmap(_bigchain_shard, explore.chunks(big, 64), rep, seed)
+    # ... and all five tree shapes with three operators (e.g. x / ((a / b) / c)): here the right operand - the divisor - is itself computed and can be tiny (1/10^12)
+    # or huge; leaves 1, 10^6, 999983 delivered as inputs
+    tl = [1, 10 ** 6, 999983]
+    bal = [(sh, o1 + o2 + o3, lv) for sh in shapes3() for o1 in "/*-" for o2 in "/*-" for o3 in "/*-" for lv in itertools.product(tl, repeat=4)]
+    explore.pmap(_baltree_shard, explore.chunks(bal, 32), rep, seed)
     rep.section("sizes", small_pairs=len(pairs), large_pairs=len(fam), trees=len(ts))
     rep.rule = ("all ordered pairs over {p/q: |p|<=12, q<=6} (%d values) x 6 operators x 2 representations (Python int where "
                 "integral / sympy); a structured large family; all expression trees over + - * / with 7 leaves up to depth %d%s "
-                "run as Vyxal programs; plus all left-deep and right-deep operator chains of 3..%d operators over 4 [3] leaves; plus all left-deep chains of 2-3 operators (and 4 over / *) whose leaves are large integers (10^6, 999983, 2^31 [10^9+7]) delivered as inputs. distinct_nontrivial counts distinct operand pairs and distinct trees." % (
+                "run as Vyxal programs; plus all left-deep and right-deep operator chains of 3..%d operators over 4 [3] leaves; plus all left-deep chains of 2-3 operators (and 4 over / *) whose leaves are large integers (10^6, 999983, 2^31 [10^9+7]) delivered as inputs, and all five tree shapes with three operators from / * - over the leaves 1, 10^6, 999983 (computed divisors as small as 10^-12). distinct_nontrivial counts distinct operand pairs and distinct trees." % (
                     len(vals), depth, " plus left-deep depth-2 chains" if tier == "quick" else "", maxops))
     import random
 
